@@ -9,6 +9,12 @@ CLAIMED = {
  "C12": ("Hypothesis op-list generation (fill/read/rebin) vs. independent searchsorted reference model, plus exhaustive small-alphabet enumeration",
          "Generated-input search: every read of data/underflow/overflow/n_entries/raw_data after any generated history of fills, reads and rebins is compared exactly with a from-scratch reference binning; exploration level because the input space (float edges x entry multisets x histories) is infinite; a complete enumeration of a 5-7 value alphabet (<=4 edges, <=3-4 entries) backs up the boundary cases.",
          "Trusts numpy.searchsorted/sort as the reference; finite float entries only; set_bins (manual heights) not generated.", "DESIGN.md §4 C12"),
+ "C04": ("Hypothesis op-list histories on Nexus/node API vs. from-scratch reference interpreter + call-counter recomputation oracle",
+         "Generated-input search over graph programs and histories (create/assign/func=/replace/Nexus.add existing_behavior/Tuple[i]=/add_dependency incl. cycle-closing/freeze/unfreeze/reads): every read is compared exactly with a from-scratch evaluation of the harness' own graph description, and wrapped user callables may run at most once per operation and only if a transitive input changed. Exploration level: the space of graphs x histories is unbounded.",
+         "Trusts the ~100-line reference interpreter in kverif/props/c04.py; integer-valued nodes; freeze only directly after a read; replace/setitem/add_child only generated acyclic (only Nexus.add_dependency/Nexus.add promise a cycle check); one open known finding (KF-C04-1, Fallback) is excluded by signature.", "DESIGN.md §4 C04"),
+ "C16": ("Hypothesis set/read histories on ConfidenceLevel and generated profile/contour requests vs. scipy.stats.chi2 / closed forms",
+         "Generated-input search: (a) construct+set+read histories on one ConfidenceLevel over n=1..50 with tails near CL->0 and CL->1, judged in CL space against chi2(n).cdf, erf and 1-exp(-s^2/2); (b) monotonicity on sorted samples and the tabulated 1/2/3-sigma values; (c) the cl actually handed to iminuit.mncontour (spied from the harness) and the level objects of ContoursProfiler; (d) arrow specs of profile(cl/low/high, arrows) for both backends on analytic quadratic costs (central vs one-sided 2cl-1 rule, y-y_min=sigma_i^2, analytic x crossing).",
+         "Trusts scipy.stats.chi2 as reference; CL-space absolute tolerance 2e-15 (+1e-12 relative to min(cl,1-cl)); ndim is never changed on a live object; arrow x within 2e-2 sigma.", "DESIGN.md §4 C16"),
 }
 NOT_YET = "check not built yet in this session (work in progress; see DESIGN.md §10 build order)"
 
